@@ -142,9 +142,20 @@ pub fn byte_accounting_mode(cx: &mut Ctx, rule: &str, mode: Acct) {
             // BOM branch: a decision on lxr.window[0] whose only non-empty branch is exactly {U+FEFF}, with one slide
             // and an advance by the BOM's byte length
             let mut bom_ok = false;
+            // the local that holds the lexer under construction: `let mut X = Lexer { .. }`
+            let mut lxr = "lxr".to_string();
+            for st in &m.block.stmts {
+                if let syn::Stmt::Local(l) = st {
+                    if let (Some(init), syn::Pat::Ident(pi)) = (&l.init, &l.pat) {
+                        if matches!(&*init.expr, syn::Expr::Struct(sx) if sx.path.segments.last().map_or(false, |x| x.ident == "Lexer")) {
+                            lxr = pi.ident.to_string();
+                        }
+                    }
+                }
+            }
             sm::for_each_expr_in_block(&m.block, |e| {
                 if let Some((scrut, brs)) = branches(e) {
-                    if scrut != "lxr.window[0]" {
+                    if scrut != format!("{}.window[0]", lxr) {
                         return;
                     }
                     let bom: BTreeSet<char> = ['\u{feff}'].into_iter().collect();
@@ -154,10 +165,10 @@ pub fn byte_accounting_mode(cx: &mut Ctx, rule: &str, mode: Acct) {
                         let mut bytes = vec![];
                         for st in &brs[0].body {
                             let t = sm::tsc(*st);
-                            if t == "lxr.window.slide();" {
+                            if t == format!("{}.window.slide();", lxr) {
                                 slides += 1;
                             } else if let syn::Stmt::Expr(syn::Expr::Binary(b), _) = st {
-                                if sm::tsc(&b.left) == "lxr.location" && matches!(b.op, syn::BinOp::AddAssign(_)) {
+                                if sm::tsc(&b.left) == format!("{}.location", lxr) && matches!(b.op, syn::BinOp::AddAssign(_)) {
                                     bytes.push(inc_value(&b.right, &BTreeSet::new()));
                                 } else {
                                     good = false;
@@ -1388,6 +1399,17 @@ pub fn indent_pairing(cx: &mut Ctx, rule: &str) {
         use syn::visit::Visit;
         let mut bv = BV { blocks: vec![] };
         bv.visit_block(&f.block);
+        // the local holding the measured indentation: `let X = self.eat_indentation()?;`
+        let mut indent_local = "indentation_level".to_string();
+        sm::for_each_stmt_in_block(&f.block, &mut |st| {
+            if let syn::Stmt::Local(l) = st {
+                if let (Some(init), syn::Pat::Ident(pi)) = (&l.init, &l.pat) {
+                    if sm::tsc(&init.expr) == "self.eat_indentation()?" {
+                        indent_local = pi.ident.to_string();
+                    }
+                }
+            }
+        });
         // immutable locals of this function that hold `self.get_pos()`
         let mut fn_pos_locals: Vec<String> = vec![];
         sm::for_each_stmt_in_block(&f.block, &mut |st| {
@@ -1433,7 +1455,8 @@ pub fn indent_pairing(cx: &mut Ctx, rule: &str) {
                 if emits_dedent && !(i > 0 && ts[..i].iter().rev().take(2).any(|x| x == "self.indentations.pop();")) {
                     cx.fail(rule, &format!("{}/dedent-without-pop/{}", rule, fname), &lx.loc(f), "emit(Dedent) without a preceding indentations.pop");
                 }
-                if emits_indent && !t.contains("TextRange::new(self.get_pos()-TextSize::new(indentation_level.spaces)-TextSize::new(indentation_level.tabs),self.get_pos(),)") && !t.contains("TextRange::new(self.get_pos()-TextSize::new(indentation_level.spaces)-TextSize::new(indentation_level.tabs),self.get_pos())") {
+                let il = &indent_local;
+                if emits_indent && !t.contains(&format!("TextRange::new(self.get_pos()-TextSize::new({il}.spaces)-TextSize::new({il}.tabs),self.get_pos(),)")) && !t.contains(&format!("TextRange::new(self.get_pos()-TextSize::new({il}.spaces)-TextSize::new({il}.tabs),self.get_pos())")) {
                     cx.fail(rule, &format!("{}/indent-range", rule), &lx.loc(f), "the Indent range is not tok_pos - spaces - tabs .. tok_pos");
                 }
                 if emits_dedent && !t.contains("TextRange::empty(self.get_pos())") {
@@ -1446,7 +1469,7 @@ pub fn indent_pairing(cx: &mut Ctx, rule: &str) {
         cx.fail(rule, &format!("{}/counts", rule), &lx.rel, &format!("{} push sites and {} pop sites (1 and 2 expected)", push_blocks, pop_blocks));
     }
     // handle_indentations: nesting test first
-    match method_block_text(&lx, "handle_indentations") {
+    match lexer_method(&lx, "handle_indentations").map(|m| sm::tsx(&m.block)) {
         Some(t) => {
             if t.starts_with("{letindentation_level=self.eat_indentation()?;ifself.nesting!=0{returnOk(());}") {
                 cx.ok(rule, "handle_indentations: `if nesting != 0 { return }` precedes every Indent/Dedent");
